@@ -1,5 +1,6 @@
 import PeliteModel.Driver.Image
 import PeliteModel.Model.ResGroup
+import PeliteModel.Spec.Resources
 /-!
 Driver handlers of the `res` family (src/resources/{mod,find,group,art}.rs); mirrors
 harness/src/ops_res.rs operation for operation.
@@ -211,17 +212,176 @@ def grpWrite (c : Ctx) (n : Name) (cursor : Bool) : String :=
     | none => "none"
   | o => outErr o
 
-/-! ### dispatch on the sub-command -/
+
+/-! ### the specification's answers from the abstract tree (`tree=`)
+
+    node  = F<code page>:<hex content | -> | D<named count>[entry;entry;…]
+    entry = <name>=<node> ;  name = i<id> | w<utf-16 units, 4 hex digits each | -> -/
 
 def pathOf (s : String) : List Nat := (unhex s).toList.map UInt8.toNat
+
+def isHexC (c : Char) : Bool := c.isDigit || ('a' ≤ c && c ≤ 'f')
+
+def natOf (cs : List Char) : Nat := cs.foldl (fun a c => a * 10 + (c.toNat - 48)) 0
+
+def bytesOfHex : List Char → List UInt8
+  | a :: b :: rest => UInt8.ofNat (hexVal a * 16 + hexVal b) :: bytesOfHex rest
+  | _ => []
+
+def wordsOfHex : List Char → List Nat
+  | a :: b :: c :: d :: rest => (hexVal a * 4096 + hexVal b * 256 + hexVal c * 16 + hexVal d) :: wordsOfHex rest
+  | _ => []
+
+def pName (cs : List Char) : Option (RName × List Char) :=
+  match cs with
+  | 'i' :: rest => let ds := rest.takeWhile Char.isDigit; some (.id (natOf ds), rest.dropWhile Char.isDigit)
+  | 'w' :: '-' :: rest => some (.wide [], rest)
+  | 'w' :: rest => let hs := rest.takeWhile isHexC; some (.wide (wordsOfHex hs), rest.dropWhile isHexC)
+  | _ => none
+
+mutual
+def pNode : Nat → List Char → Option (Node × List Char)
+  | 0, _ => none
+  | fuel+1, cs =>
+    match cs with
+    | 'F' :: rest =>
+      let ds := rest.takeWhile Char.isDigit
+      match rest.dropWhile Char.isDigit with
+      | ':' :: '-' :: rest' => some (.data [] (natOf ds), rest')
+      | ':' :: rest' => let hs := rest'.takeWhile isHexC; some (.data (bytesOfHex hs) (natOf ds), rest'.dropWhile isHexC)
+      | _ => none
+    | 'D' :: rest =>
+      let ds := rest.takeWhile Char.isDigit
+      match rest.dropWhile Char.isDigit with
+      | '[' :: rest' =>
+        match pEntries fuel rest' with
+        | some (es, ']' :: rest'') => some (.dir (natOf ds) es, rest'')
+        | _ => none
+      | _ => none
+    | _ => none
+def pEntries : Nat → List Char → Option (Entries × List Char)
+  | 0, _ => none
+  | fuel+1, cs =>
+    match cs with
+    | ']' :: _ => some (.nil, cs)
+    | _ =>
+      match pName cs with
+      | some (nm, '=' :: rest) =>
+        match pNode fuel rest with
+        | some (ch, ';' :: rest') =>
+          match pEntries fuel rest' with
+          | some (more, rest'') => some (.cons nm ch more, rest'')
+          | none => none
+        | some (ch, rest') => some (.cons nm ch .nil, rest')
+        | none => none
+      | _ => none
+end
+
+def parseTree (s : String) : Option Node :=
+  match pNode (s.length + 2) s.toList with
+  | some (t, []) => some t
+  | _ => none
+
+def sNameS : RName → String
+  | .id n => s!"#{n}"
+  | .wide ws => s!"w{hexW ws}"
+
+def sDirS (n : Nat) (es : Entries) : String := s!"D[{n},{es.length - n}]"
+def sDataS (c : List UInt8) (cp : Nat) : String := s!"F(#{digest c},cp={cp},size={c.length})"
+def sNodeS : Node → String
+  | .dir n es => sDirS n es
+  | .data c cp => sDataS c cp
+
+mutual
+def sDumpNode : Node → String
+  | .data c cp => sDataS c cp
+  | .dir n es => sDirS n es ++ "{split=1;" ++ sDumpEntries es ++ "}"
+def sDumpEntries : Entries → String
+  | .nil => ""
+  | .cons nm ch rest => sNameS nm ++ ":" ++ sDumpNode ch ++ "," ++ sDumpEntries rest
+end
+
+def sFres (sep : String) (o : FRes Node) : String :=
+  match o with
+  | .ok t => "ok" ++ sep ++ sNodeS t
+  | .error e => "err" ++ sep ++ ferr e
+
+def sTriple (e : FRes Node) : String :=
+  s!"{sFres " " e} data={sFres ":" (e.bind Node.asData)} dir={sFres ":" (e.bind Node.asDir)}"
+
+def sBytes (o : FRes Node) : String :=
+  match o with
+  | .ok (.data c _) => "ok #" ++ digest c
+  | .ok _ => "-"
+  | .error e => "err " ++ ferr e
+
+-- the tree printer on the abstract tree: one line per entry, margins of the enclosing levels
+mutual
+def sDrawNode (isRoot : Bool) (depth margin : Nat) : Node → List Nat
+  | .data .. => []
+  | .dir _ es => sDrawEntries isRoot depth margin es
+def sDrawEntries (isRoot : Bool) (depth margin : Nat) : Entries → List Nat
+  | .nil => []
+  | .cons nm ch rest =>
+    let tail := match rest with | .nil => true | _ => false
+    let name := (nm.toName.renameId (if isRoot then rsrcTypes else [])).display
+    marginText depth margin ++ (if tail then asc "`-- " else asc "+-- ") ++ name ++
+      (if ch.isDir then [47, 10] else [10]) ++
+      sDrawNode false (depth + 1) (margin ||| (if tail then 2 ^ depth else 0)) ch ++
+      sDrawEntries isRoot depth margin rest
+end
+
+/-- ops whose answer the abstract tree determines; `-` = no claim -/
+def specAnswer (t : Node) (a : List String) : String :=
+  match a with
+  | ["dump"] => "ok " ++ sDumpNode t
+  | ["fsck"] => if t.depth ≤ 32 then "ok" else "-"
+  | ["fmt"] => "ok " ++ textS (asc "Resources/\n" ++ sDrawNode true 0 0 t)
+  | ["find", p] => sTriple (t.find (pathOf p))
+  | ["manifest"] => sBytes t.manifest
+  | ["version"] => sBytes t.version
+  | "find_resource" :: ns =>
+    match ns.map parseName with
+    | [some ty, some n] => s!"{sBytes (t.findResource ty n)} dir={sFres ":" (t.findResources ty n)}"
+    | [some ty, some n, some l] => sBytes (t.findResourceEx ty n l)
+    | _ => "-"
+  | [sub, p, x] =>
+    if sub != "get" && sub != "dfind" then "-" else
+    match (t.find (pathOf p)).bind Node.asDir with
+    | .error e => "nodir " ++ ferr e
+    | .ok d =>
+      if sub == "get" then
+        if x == "-" then sTriple d.first
+        else match parseName x with
+          | some q => sTriple (d.get q)
+          | none => "-"
+      else if sub == "dfind" then sTriple (d.walk (dirPathParts (pathOf x)))
+      else "-"
+  | _ => "-"
+
+def specPart (c : Ctx) (all : List String) (a : List String) : String :=
+  match all.find? (·.startsWith "tree=") with
+  | none => ""
+  | some tt =>
+    match parseTree (tt.drop 5).toString with
+    | none => " ## tree=bad"
+    | some t =>
+      let isTree := decide (IsTree c.r t) && c.r.base % 4 == 0
+      let small := decide (t.entryCount ≤ countCap ∧ t.depth ≤ depthCap ∧ t.depth ≤ 32 ∧ t.dirCount ≤ c.r.sec.size / 16)
+      let enc := if all.contains "canon=1" then
+          (if decide (encodeTree c.r.dirVA t = c.r.sec.toList) then " enc=1" else " enc=0") else ""
+      let encodable := decide (Encodable c.r.dirVA t)
+      s!" ## hyp={if isTree && small then 1 else 0} istree={if isTree then 1 else 0} encodable={if encodable then 1 else 0}{enc} spec={specAnswer t a}"
+
+/-! ### dispatch on the sub-command -/
+
 
 def triple (c : Ctx) (e : Out (FRes Entry)) (d : Out (FRes DataEntry)) (dd : Out (FRes Dir)) : String :=
   s!"{fresS " " (entryS c) e} data={fresS ":" (dataS c) d} dir={fresS ":" (dirS c) dd}"
 
 def refDigest (c : Ctx) (b : Ref) : String := s!"{c.rf b}#{digest (bytesAt c.r.sec b.off b.len)}"
 
-def run (c : Ctx) (a : List String) : String :=
-  let a := a.filter fun x => x != "" && !x.startsWith "want=" && !x.startsWith "tree="
+def runModel (c : Ctx) (a : List String) : String :=
   let r := c.r
   match a with
   | [] | ["all"] =>
@@ -232,7 +392,7 @@ def run (c : Ctx) (a : List String) : String :=
   | ["find", p] =>
     let p := pathOf p
     triple c (find r p) (findData r p) (findDir r p)
-  | ["manifest"] => fresS " " (c.rf) (manifest r)
+  | ["manifest"] => fresS " " (refDigest c) (manifest r)
   | ["icons"] => groupsS c RT_GROUP_ICON
   | ["cursors"] => groupsS c RT_GROUP_CURSOR
   | ["version"] =>
@@ -240,7 +400,7 @@ def run (c : Ctx) (a : List String) : String :=
       | .ok (.ok _) => "ok"
       | .ok (.error e) => "err:" ++ ferr e
       | o => outErr o
-    s!"{fresS " " (c.rf) (versionBytes r)} vi={vi}"
+    s!"{fresS " " (refDigest c) (versionBytes r)} vi={vi}"
   | "find_resource" :: ns =>
     match ns.map parseName with
     | [some t, some n] => s!"{fresS " " (refDigest c) (findResource r t n)} dir={fresS ":" (dirS c) (findResources r t n)}"
@@ -273,6 +433,10 @@ def run (c : Ctx) (a : List String) : String :=
     | .ok (.error e) => "nodir " ++ ferr e
     | o => outErr o
   | _ => "bad-op"
+
+def run (c : Ctx) (all : List String) : String :=
+  let a := all.filter fun x => x != "" && !x.startsWith "want=" && !x.startsWith "tree=" && !x.startsWith "canon="
+  runModel c a ++ specPart c all a
 
 end Pelite.Driver.Res
 
